@@ -529,6 +529,14 @@ Proof.
   - apply IH. assumption.
 Qed.
 
+(* the limits the code puts on sx, sy never exclude the catalogue shape *)
+Lemma shape_unclipped_true : forall kf p, 0 <= p_sx p -> 0 <= p_sy p -> shape_unclipped kf p = true.
+Proof.
+  intros kf p Hx Hy. unfold shape_unclipped, shape_lo, shape_hi.
+  destruct (shape_limits_spec (p_sx p) (p_sy p) (p_beam_a p) (p_beam_b p) kf Hx Hy) as (L1 & L2 & L3 & L4).
+  apply Qleb_iff in L1, L2, L3, L4. rewrite L1, L2, L3, L4. reflexivity.
+Qed.
+
 Section Roundtrip.
   Variable S P : Q * Q -> Q * Q.
   Variable SE PE : Q * Q -> ell -> ell.
@@ -612,7 +620,8 @@ Section Roundtrip.
     exists s, In s (accepted_inputs islands) /\ o_uuid c = s_uuid s /\
       ((st < 2)%Z -> peq (o_xpix c, o_ypix c) (S (s_ra s, s_dec s)) /\
                      (0 <= s_ra s -> o_ra c == s_ra s /\ o_dec c == s_dec s)) /\
-      ((st < 3)%Z -> shape_unclipped kf (place s) = true -> s_b s <= s_a s -> -(90 # 1) < s_pa s -> s_pa s <= (90 # 1) ->
+      ((st < 3)%Z -> 0 <= p_sx (place s) -> 0 <= p_sy (place s) ->
+         s_b s <= s_a s -> -(90 # 1) < s_pa s -> s_pa s <= (90 # 1) ->
          ell_inverts_at SE PE (s_ra s, s_dec s) (o_xpix c, o_ypix c) ->
          o_a c == s_a s /\ o_b c == s_b s /\ o_pa c == s_pa s).
   Proof.
@@ -648,7 +657,8 @@ Section Roundtrip.
       { apply Qltb_false_iff. rewrite P1. exact Hra. }
       rewrite E0. split; assumption.
     - (* shape *)
-      intros Hst Hclip Hba Hpa1 Hpa2 Hinv. rewrite vary_sx_spec in Ksx. rewrite vary_sy_spec in Ksy. rewrite vary_theta_spec in Kth.
+      intros Hst Hsx0 Hsy0 Hba Hpa1 Hpa2 Hinv. pose proof (shape_unclipped_true kf (place s) Hsx0 Hsy0) as Hclip.
+      rewrite vary_sx_spec in Ksx. rewrite vary_sy_spec in Ksy. rewrite vary_theta_spec in Kth.
       assert (E3 : (3 <=? st)%Z = false) by (apply Z.leb_gt; exact Hst).
       specialize (Ksx E3). specialize (Ksy E3). specialize (Kth E3).
       unfold shape_unclipped in Hclip. rewrite !andb_true_iff in Hclip. destruct Hclip as [[[C1 C2] C3] C4].
